@@ -51,6 +51,10 @@ type C18Case struct {
 	// other, which puts two conflicting unsynchronised accesses of "neighbouring" goroutines close together in
 	// the race detector's bounded history (far-apart conflicting accesses are dropped by the detector).
 	Procs int `json:"procs,omitempty"`
+	// ColdStart: the concurrent phase runs FIRST and the runs alone (the reference results) afterwards: package
+	// state that is initialised lazily on first use is then first touched by several goroutines at once. Only
+	// meaningful for the first case a process executes.
+	ColdStart bool `json:"cold_start,omitempty"`
 }
 
 type c18Out struct {
@@ -67,6 +71,9 @@ func runC18(r *vrt.Run, c C18Case) (o c18Out) {
 		skip         bool
 	}
 	solos := make([]solo, len(c.Pipes))
+	if c.ColdStart {
+		return runC18Cold(c)
+	}
 	for i, p := range c.Pipes {
 		d := p.Data.Expand()
 		cfg := p.Cfg
@@ -142,6 +149,83 @@ func runC18(r *vrt.Run, c C18Case) (o c18Out) {
 	return
 }
 
+// runC18Cold runs the pipelines concurrently before anything else has used the library in this process, then
+// each of them alone, and compares.
+func runC18Cold(c C18Case) (o c18Out) {
+	type res struct {
+		data, st, out []byte
+		err           error
+	}
+	rs := make([]res, len(c.Pipes))
+	for i, p := range c.Pipes {
+		rs[i].data = p.Data.Expand()
+	}
+	var wg sync.WaitGroup
+	start := make(chan struct{})
+	for i := range c.Pipes {
+		wg.Add(1)
+		go func(i int) {
+			defer wg.Done()
+			pp := c.Pipes[i]
+			<-start
+			rs[i].st, rs[i].err = pp.compress(rs[i].data, pp.Cfg)
+			if rs[i].err == nil {
+				rs[i].out, rs[i].err = pp.decompress(rs[i].st, pp.Cfg, max(pp.ReadJobs, 1))
+			}
+		}(i)
+	}
+	close(start)
+	wg.Wait()
+	o.nontrivial = len(c.Pipes) >= 2
+	for i, pp := range c.Pipes {
+		cfg := pp.Cfg
+		cfg.Jobs = 1
+		st, err := pp.compress(rs[i].data, cfg)
+		if err != nil {
+			continue // not an interference matter (C01)
+		}
+		out, err := pp.decompress(st, cfg, 1)
+		if err != nil || !bytes.Equal(out, rs[i].data) {
+			continue
+		}
+		switch {
+		case rs[i].err != nil:
+			o.msg = fmt.Sprintf("cold start: pipeline %d (%s) failed when it was among the first users of the library in the process (%v) but works alone", i, pp.Cfg.String(), rs[i].err)
+		case !bytes.Equal(rs[i].st, st):
+			o.msg = fmt.Sprintf("cold start: pipeline %d (%s): compressed bytes differ from the run alone (first difference at %d)", i, pp.Cfg.String(), firstDiff(rs[i].st, st))
+		case !bytes.Equal(rs[i].out, rs[i].data):
+			o.msg = fmt.Sprintf("cold start: pipeline %d (%s): decoded bytes differ from the run alone (first difference at %d)", i, pp.Cfg.String(), firstDiff(rs[i].out, rs[i].data))
+		}
+		if o.msg != "" {
+			return
+		}
+	}
+	return
+}
+
+// c18ColdCase is the first case of a shard: two pairs of pipelines, each pair on the same codecs, chosen by the
+// shard number so that the 8 shards together start cold on every transform and entropy codec.
+func c18ColdCase(shard int) C18Case {
+	chains := []string{"TEXT+UTF", "BWT+RANK+ZRLT", "EXE+RLT+LZ", "DNA+PACK+LZX", "MM+ROLZ", "LZP+SRT+MTFT", "ROLZX+BWTS", "TEXT"}
+	entropies := []string{"HUFFMAN", "ANS0", "ANS1", "RANGE", "FPAQ", "CM", "TPAQ", "TPAQX"}
+	var c C18Case
+	c.ColdStart = true
+	for j := 0; j < 2; j++ {
+		ch := chains[(shard+3*j)%len(chains)]
+		en := entropies[(shard+4*j)%len(entropies)]
+		kinds := affinity(strings.Split(ch, "+")[0])
+		for k := 0; k < 2; k++ {
+			kind := gen.KText
+			if len(kinds) > 0 {
+				kind = kinds[0]
+			}
+			c.Pipes = append(c.Pipes, C18Pipe{Cfg: gen.Config{Transform: ch, Entropy: en, BlockSize: 4096, Jobs: 2, Checksum: 32, HintClass: "absent"},
+				Data: gen.Recipe{Kind: kind, Len: 3*4096 - 100*k, Seed: uint64(10*shard + 2*j + k + 1), P1: 1}, ReadJobs: 2})
+		}
+	}
+	return c
+}
+
 func c18Eval(r *vrt.Run, c C18Case) c18Out {
 	o := runC18(r, c)
 	labels := []string{fmt.Sprintf("pipes:%d", len(c.Pipes)), fmt.Sprintf("maxlive:%d", min(int(o.maxLive), 16)/4*4)}
@@ -208,6 +292,15 @@ func drawC18(t *rapid.T, maxBlock int) C18Case {
 
 func TestC18(t *testing.T) {
 	r := start(t, "C18")
+	if !r.ReplayOnly() {
+		// before anything else touches the library in this process (the replay tier included)
+		c := c18ColdCase(r.Shard)
+		r.Label("cold-start")
+		if o := c18Eval(r, c); o.msg != "" {
+			r.RecordFailure("interference", c, "", o.msg)
+			t.Fatalf("cold start: %s", o.msg)
+		}
+	}
 	for _, p := range r.ReplayFiles() {
 		ff, err := vrt.LoadFail(p)
 		if err != nil {
